@@ -288,6 +288,69 @@ def model_part(ans):
     return ans.split(";;", 1)[0]
 
 
+RECORD_KINDS = ["MODULE", "INFO_CODE_ID", "INFO_URL", "INFO_other", "FILE", "INLINE_ORIGIN", "FUNC", "FUNC_m", "line_record", "INLINE",
+                "PUBLIC", "PUBLIC_m", "STACK_CFI_INIT", "STACK_CFI", "STACK_WIN", "blank", "other", "unterminated"]
+RESULTS = ["OK", "E1", "E2", "E3", "E4"]
+TRANSITIONS = ["grow", "grow_to_160K", "shift", "discard", "recovered", "recovered_twice", "zero_read", "full_buffer_read",
+               "eof_partial_line", "eof_after_recovery", "eof_in_discard"]
+
+
+def feature_distribution(model_ans):
+    """What the generated cases exercise, measured on the model's run of each case (the model run is compared with the
+    implementation event by event, so its trajectory is the implementation's): number of cases per record kind present,
+    per result / error branch, per kind of rejected line, per buffer transition.  -> (dict, list of holes)"""
+    d = {}
+
+    def inc(k):
+        d[k] = d.get(k, 0) + 1
+
+    n = 0
+    for a in model_ans or []:
+        if not a:
+            continue
+        f = fields(a)
+        if "X" not in f:
+            continue
+        n += 1
+        for k in f.get("K", "").split(","):
+            if k:
+                inc("record_kind:" + k)
+        r = f["R"].split(":")[0]
+        inc("result:" + r)
+        if f.get("EK", "-") != "-":
+            inc("rejected_line:%s:%s" % (r, f["EK"]))
+        g, sh, di, rec, z, fu = [int(x) for x in f["X"].split(",")]
+        dropped = int(f.get("dropped", "0"))
+        if g:
+            inc("buffer:grow")
+        if f.get("cap") == str(MAXCAP):
+            inc("buffer:grow_to_160K")
+        if sh:
+            inc("buffer:shift")
+        if di:
+            inc("buffer:discard")
+        if rec:
+            inc("buffer:recovered")
+        if rec >= 2:
+            inc("buffer:recovered_twice")
+        if z:
+            inc("buffer:zero_read")
+        if fu:
+            inc("buffer:full_buffer_read")
+        if r == "E4":
+            inc("buffer:eof_partial_line")
+        if rec and r == "OK":
+            inc("buffer:eof_after_recovery")
+        if di and not rec and dropped == 0:
+            inc("buffer:eof_in_discard")
+    holes = (["record_kind:" + k for k in RECORD_KINDS if ("record_kind:" + k) not in d] +
+             ["result:" + k for k in RESULTS if ("result:" + k) not in d] +
+             ["buffer:" + k for k in TRANSITIONS if ("buffer:" + k) not in d] +
+             ["rejected_line:E1:" + k for k in RECORD_KINDS if k not in ("blank", "unterminated") and ("rejected_line:E1:" + k) not in d])
+    d["measured_cases"] = n
+    return dict(sorted(d.items())), holes
+
+
 TRUSTED = [
     "Coq 8.16.1 kernel (vm_compute only in the non-vacuity Examples)",
     "driver model C09/Model.v written by hand from SymbolFile::parse (mod.rs) and circular 0.3.0; line recogniser C09/Grammar.v "
@@ -500,3 +563,14 @@ def orphan_files(rng, n):
         data = b"\n".join([b"MODULE Linux x86 ABC name"] + pre + grp + [b"FILE 9 z"]) + b"\n"
         out.append(data)
     return out
+
+
+def record_features(prop, ctx):
+    """put the measured distribution into the evidence (input_distribution.features / .holes)"""
+    if ctx.get("replay") or not ctx.get("model"):
+        return
+    feats, holes = feature_distribution(ctx["model"])
+    dist = getattr(prop, "_dist", None)
+    if dist is not None:
+        dist["features"] = feats
+        dist["holes"] = holes
